@@ -96,7 +96,10 @@ def inline_small_documents(seed):
               ('a,', '', ',', ''), ('b.', '', '.', ''),
               ('\\alpha_1^2', '', '', ''), ('\\,x', ' ', '', ''),
               ('x\\,', '', '', ' '), ('\\frac{a}{b};', '', ';', ''),
-              ('\\unknownmacro{z}:', '', ':', '')]
+              ('\\unknownmacro{z}:', '', ':', ''),
+              # a final mark followed by several maths spaces
+              ('y,\\,\\,', '', ',', ' '), ('z;\\quad\\ ', '', ';', ' '),
+              ('\\;u.~~~', ' ', '.', ' ')]
     n, fails = 0, []
     for lang in ('en', 'de', 'ru'):
         coll = list(parameters.Parameters(lang).lang_context
@@ -131,7 +134,7 @@ def inline_small_documents(seed):
             break
     return {'name': 'inline-formulas-on-small-documents', 'bounded': True,
             'bound': '3 languages x all sequences of 1-2 formulas, a 7th of '
-                     'those of 3 and a 60th of those of 4, over 10 bodies',
+                     'those of 3 and a 60th of those of 4, over 13 bodies',
             'evaluations': n, 'failures': fails}
 
 
